@@ -32,16 +32,16 @@ def run(ctx):
     ctx.preload(cfgs)
     for cfg in cfgs:
         fs = ctx.facts(cfg)
-        fork(ctx, cfg, fs)
-        table(ctx, cfg, fs)
-        pick_winner(ctx, cfg, fs)
-        ledger_only(ctx, cfg, fs, 'W.pick_winner')
-        consumers.itemstate(ctx, cfg, fs, 'I.itemstate')
-        conflicts(ctx, cfg, fs)
+        ctx.guard(fork, ctx, cfg, fs)
+        ctx.guard(table, ctx, cfg, fs)
+        ctx.guard(pick_winner, ctx, cfg, fs)
+        ctx.guard(ledger_only, ctx, cfg, fs, 'W.pick_winner')
+        ctx.guard(consumers.itemstate, ctx, cfg, fs, 'I.itemstate')
+        ctx.guard(conflicts, ctx, cfg, fs)
     wfs = load_witness('shapes')
     n = 0
     before = len(ctx.obs)
-    shapes.construct_shapes(ctx, '_skip', wfs)
+    ctx.guard(shapes.construct_shapes, ctx, '_skip', wfs)
     # keep only the or_else chain obligations of the witness
     keep = []
     for o in ctx.obs[before:]:
